@@ -614,6 +614,10 @@ func (e *enc) trCall(n *ECall, env *Env) Val {
 		v := e.tr(n.Args[0], env)
 		e.declFun("fieldloc", []Sort{"Int", "Int"}, "Int")
 		return Val{T: "(fieldloc " + v.T + " 0)", S: "Int"}
+	case "comparable":
+		// comparable(x): the dynamic type of interface x supports == (and hashing); nil is comparable
+		v := e.tr(n.Args[0], env)
+		return Val{T: or("(= (i-tag "+v.T+") 0)", "(comparableTag (i-tag "+v.T+"))"), S: "Bool"}
 	case "itag":
 		v := e.tr(n.Args[0], env)
 		return Val{T: "(i-tag " + v.T + ")", S: "Int"}
